@@ -65,3 +65,11 @@ def _c17(prop, tier, seed, replay):
 
 
 CHECKS["C17"] = _c17
+
+
+def _seal(prop, tier, seed, replay):
+    import fam_pure
+    return seqfamily.check(prop, fam_pure.seal_family(prop), tier, seed, replay)
+
+
+CHECKS.update({"C11": _seal, "C12": _seal})
